@@ -4,7 +4,7 @@ from html.parser import HTMLParser
 from pcv import core, capio, sccgen
 
 P = "PcVerif.Props.C11."
-THEOREMS = [P + t for t in ["reader_nodes_balanced", "scc_reader_italics_balanced", "no_span_left_open", "dfxpText_flag", "dfxp_span_closed", "vtt_tags_mirror"]]
+THEOREMS = [P + t for t in ["reader_nodes_balanced", "scc_reader_italics_balanced", "no_span_left_open", "dfxpText_flag", "dfxp_span_closed", "vtt_tags_mirror", "vtt_cues_balanced"]]
 WORDS = ["hello", "world", "caption", "I", "a", "quick", "fox", "Q&A", "x<y", "two"]
 STY = {"i": "italics", "b": "bold", "u": "underline"}
 
